@@ -69,9 +69,21 @@ func lru(t *testing.T, r *vk.Run, prop string) {
 			state := make([]string, np)
 			for p := 0; p < np; p++ {
 				f := fillOps(g, p)
-				switch rng.IntN(5) {
+				switch rng.IntN(6) {
 				case 0:
 					state[p] = "empty"
+				case 5:
+					// a buffer with nothing in it yet: the first bytes of a block arrived (a web-seed transfer cut
+					// short, a peer's truncated block); the piece holds memory although no 16 KiB chunk is stored
+					state[p] = "buffer-only"
+					n := 1 + rng.IntN(fixture.Block-1)
+					if n > g.PieceSize(p) {
+						n = g.PieceSize(p)
+					}
+					s.ps.AddData(uint32(p), 0, g.Truth(int64(p)*int64(ps), n), 0)
+					if _, bm := s.ps.PieceBitmap(uint32(p)); bm.Count() != 0 {
+						state[p] = "partial"
+					}
 				case 1:
 					state[p] = "partial"
 					for _, o := range f[:1+rng.IntN(len(f))] {
